@@ -291,7 +291,7 @@ def _mk(x64):
     suf = "x64" if x64 else "f32"
     return [
         SubCheck(name=f"domain_counts_shapes_{suf}", mode="given", strategy=strat, run_case=run_case, x64=x64,
-                 counts={"quick": 150, "thorough": 12000}, shards={"quick": 3, "thorough": 8}, clear_every=40,
+                 counts={"quick": 150, "thorough": 12000}, shards={"quick": 4, "thorough": 16}, clear_every=12,
                  min_nontrivial_frac=0.3,
                  doc=f"random generator configurations and get_batch histories ({suf})"),
         SubCheck(name=f"grid_counts_exhaustive_{suf}", mode="enum", enumerate=enum_grid, run_case=run_grid, x64=x64,
